@@ -64,7 +64,7 @@ FROZEN = {'MACH_vmfault', 'RealFaultAddressInternal', 'RealFaultAddressExternal'
           UNDECODED_RFA}
 
 
-def custom_table_text(rnd):
+def custom_table_text(rnd, rich=False):
     """text of a table derived from the bundled one: ~25% of the ids omitted, ids permuted among decodable names"""
     base = default_codes()
     by_name = {}
@@ -83,14 +83,14 @@ def custom_table_text(rnd):
     lines = []
     extra = {}
     free = iter(range(0x7a000000, 0x7a100000, 4))
-    for n in rnd.sample(decodable, min(len(decodable), rnd.choice([0, 3, 30]))):
+    for n in rnd.sample(decodable, min(len(decodable), 30 if rich else rnd.choice([0, 3, 30]))):
         if n not in dropped and AUDIT[n].get('cls') in ('SYS0', 'SYS1', 'SYS2'):
             extra[next(free)] = n                      # the same decodable name under a second id
     # ... also the names of records that OTHER decoders pick out of their windows (lookups, sampler sub-records, image
     # announcements, the trace-string / data records): every id the table gives them counts
     helpers = [n for n in by_name if n in AUDIT and n not in FROZEN and n not in dropped and
                AUDIT[n].get('cls') in ('LKP', 'THD', 'UHDR', 'UDATA', 'MAPA', 'SCA', 'GSTR', 'TNAME', 'NTD', 'NTS', 'EXD', 'EXS')]
-    for n in rnd.sample(helpers, min(len(helpers), rnd.choice([0, 1, 2, 4]))):
+    for n in rnd.sample(helpers, min(len(helpers), 4 if rich else rnd.choice([0, 1, 2, 4]))):
         extra[next(free)] = n
     for n, i in list(new.items()) + [(n, i) for i, n in extra.items()]:
         if n in dropped:
@@ -146,7 +146,7 @@ def run(ctx):
     cases = []
     nlist = 0
     for i in range(12 if ctx.quick else 150):
-        text, dropped, intended = custom_table_text(rnd)
+        text, dropped, intended = custom_table_text(rnd, rich=(i % 3 == 0))      # every third table: many second ids
         try:
             table = from_trace_codes_text(text)
         except Exception as ex:
